@@ -79,7 +79,11 @@ class PerAntennaPowerConstraint(BaseConstraint):
         """
         # Calculate current power per antenna (all dimensions except batch and antenna)
         spatial_dims = tuple(range(2, len(x.shape)))
-        antenna_power = torch.mean(torch.abs(x) ** 2, dim=spatial_dims, keepdim=True)
+        if spatial_dims:
+            antenna_power = torch.mean(torch.abs(x) ** 2, dim=spatial_dims, keepdim=True)
+        else:
+            # [batch_size, num_antennas] input: one sample per antenna (an empty dim tuple would reduce over everything)
+            antenna_power = torch.abs(x) ** 2
 
         # Determine target power
         if self.power_budget is not None:
